@@ -27,7 +27,7 @@ def call(ip, f, args, kwargs):
         return call_function(ip, f, args, kwargs)
     if isinstance(f, type):
         return instantiate(ip, f, args, kwargs)
-    ext = ip.w.externals.get(_key(f))
+    ext = _ext_lookup(ip, f)
     if ext is not None:
         return ext(ip, *args, **kwargs)
     h = BUILTINS.get(_key(f))
@@ -42,6 +42,16 @@ def _key(f):
         return f
     except TypeError:
         return id(f)
+
+
+def _ext_lookup(ip, f):
+    e = ip.w.externals.get(_key(f))
+    if e is None and getattr(f, "__self__", None) is not None:
+        # builtin bound methods (datetime.strptime, time.fromisoformat) are fresh objects on every attribute access
+        e = ip.w.externals_by_name.get((getattr(f.__self__, "__name__", None), getattr(f, "__name__", None)))
+    if e is None and getattr(f, "__objclass__", None) is not None:
+        e = ip.w.externals_by_name.get((f.__objclass__.__name__, getattr(f, "__name__", None)))
+    return e
 
 
 def qualname(f):
@@ -480,6 +490,10 @@ def call_method(ip, recv, name, args, kwargs):
         return strings.method(ip, recv, name, args, kwargs)
     if isinstance(recv, DictView):
         raise Unsupported(f"dictview.{name}")
+    if type(recv).__name__ == "Opaque":
+        h = getattr(ip.w, "opaque_methods", {}).get(recv.tag)
+        if h is not None:
+            return h(ip, recv, name, args, kwargs)
     raise Unsupported(f"method {name} of {recv!r}")
 
 
